@@ -25,13 +25,7 @@ def rustMangle (n : Ident) : Ident :=
   if hasTrigger n || isKeyword n then n.map applyRepl ++ [mangleSuffix] else n
 
 /-- decimal digits of a natural number (what `write!(s, "{n}")` appends) -/
-def decimalAux : Nat → Nat → Ident → Ident
-  | 0, _, acc => acc
-  | fuel + 1, n, acc =>
-    let acc' := Char.ofNat (48 + n % 10) :: acc
-    if n / 10 = 0 then acc' else decimalAux fuel (n / 10) acc'
-
-def decimal (n : Nat) : Ident := decimalAux (n + 1) n []
+def decimal (n : Nat) : Ident := Nat.toDigits 10 n
 
 def countOf (xs : List Ident) (x : Ident) : Nat := (xs.filter (· == x)).length
 
@@ -45,12 +39,10 @@ def assignNamesAux : List Ident → List Ident → List Ident
 
 def assignNames (cs : List Ident) : List Ident := assignNamesAux cs []
 
-def isDigit (c : Char) : Bool := '0' ≤ c && c ≤ '9'
-
 /-- Region predicate of the known finding `name_suffix_clash`: some canonical name is another
 canonical name followed by a non-empty string of decimal digits. -/
 def digitExtends (a b : Ident) : Bool :=
-  a.length < b.length && b.take a.length == a && (b.drop a.length).all isDigit
+  a.length < b.length && b.take a.length == a && (b.drop a.length).all Char.isDigit
 
 def suffixClashRegion (cs : List Ident) : Bool := cs.any fun a => cs.any fun b => digitExtends a b
 
